@@ -99,12 +99,25 @@ def _ref_level(r, n, flt, prune, skip_self):
     return out
 
 
-def make_traversal_harness(shapes):
+def _detached_twin_shapes():
+    """Trees that are built detached (create_detached=True, never registered) and contain
+    content-equal cousins / an equal ancestor-descendant pair: their ids coincide."""
+    L = lambda v: R("LLeaf", {"v": v})  # noqa: E731
+    return [
+        R("LTup", items=(R("LReq", child=L(1)), R("LOpt", one=L(1)))),
+        R("LReq", child=R("LReq", child=R("LOpt", one=R("LReq", child=L(1))))),
+        R("LMix", {"v": 0}, first=R("LOpt", one=L(2)), items=(R("LReq", child=L(2)),), one=L(2)),
+        R("LTup", items=(R("LTup", items=(L(4),)), R("LList", elems=[L(4), L(5)]))),
+        R("LReq", child=R("LTup", items=(R("LReq", child=R("LTup", items=())),))),
+    ]
+
+
+def make_traversal_harness(shapes, detached: bool = False):
     def harness(e):
         LZ.lreset()
         sno = e.choice(len(shapes), "shape")
         recipe = shapes[sno]
-        root = LZ.lbuild(recipe)
+        root = LZ.lbuild(recipe, all_detached=detached)
         pos = _positions(recipe, root)
         index = {id(n): k for k, (n, _, _) in enumerate(pos)}
         pb: dict[int, Any] = {}
@@ -447,6 +460,8 @@ def spec(tier: str, seed: int) -> Spec:
     chunk = 6
     lazyv = "lazy: prune/filter bit per node, skip_self, bottom_up, exact_type; selectors: shape, start node, mode"
     fams = [Family(f"trav[{k}:{k + chunk}]", make_traversal_harness(shapes[k : k + chunk]), variables=lazyv) for k in range(0, len(shapes), chunk)]
+    for k, shp in enumerate(_detached_twin_shapes()):
+        fams.append(Family(f"trav-detached-trees-with-equal-ids[{k}]", make_traversal_harness([shp], detached=True), variables=lazyv + "; trees built with create_detached=True whose content-equal cousins share an id"))
     paths = lpath_space(tier)
     pch = max(1, len(paths) // 48)
     fams += [Family(f"xpath[{k}:{k + pch}]", make_xpath_harness(paths[k : k + pch]), variables="selectors: xpath derivation, tree") for k in range(0, len(paths), pch)]
